@@ -49,6 +49,15 @@ type overrideDef struct {
 
 // isMaxOne: v ≡ max(prev, 1) as int(math.Max(float64(prev), 1)).
 func isMaxOne(v ssa.Value, prev ssa.Value) bool {
+	// builtin max(prev, 1)
+	if c, ok := isBuiltinCall(v, "max"); ok && len(c.Common().Args) == 2 {
+		a0, a1 := c.Common().Args[0], c.Common().Args[1]
+		one := func(x ssa.Value) bool {
+			k, ok := x.(*ssa.Const)
+			return ok && k.Value != nil && k.Value.String() == "1"
+		}
+		return (a0 == prev && one(a1)) || (a1 == prev && one(a0))
+	}
 	cv, ok := v.(*ssa.Convert)
 	if !ok {
 		return false
@@ -532,13 +541,10 @@ func (ck *Check) exactTaintCount(rule string) {
 		// n is one of the two candidates on every path
 		env := &linEnv{choices: map[string]int{}, root: ctx}
 		cands := []*Term{deltaT, {Kind: "binop", Name: "-", Args: []*Term{lenOf("len", untT), minT}}}
+		// the defining cases of n: φ edges, or the return sites of a clamp helper
 		var edges []*Term
-		if ph, ok := nArg.(*ssa.Phi); ok {
-			for _, e := range ph.Edges {
-				edges = append(edges, ctx.Term(e))
-			}
-		} else {
-			edges = []*Term{nT}
+		for _, vc := range ck.valueCases(ctx, FTrue, nArg, 0) {
+			edges = append(edges, vc.term)
 		}
 		allOK := true
 		for _, e := range edges {
@@ -651,19 +657,14 @@ func (ck *Check) lessShapeOf(less *ssa.Function, recv, pi, pj *Term) (int, strin
 
 // sortedLoop describes "sorted := collect(nodes); sort.Sort(sorted); for range sorted {effect}".
 func (ck *Check) sortBeforeLoop(rule string, fn *ssa.Function, cls string, wantDir int, dirText string) {
-	var site *Site
-	for i := range ck.A.A {
-		if ck.A.A[i].Class == cls && ck.A.A[i].Fn == fn {
-			site = &ck.A.A[i]
-		}
-	}
-	if site == nil {
+	ea := ck.effActionSite(cls, fn)
+	if ea == nil {
 		ck.lost(rule, cls, "no action site")
 		return
 	}
-	call := site.Call.(*ssa.Call)
+	call := ea.Call
 	loop := innermostLoop(fn, call.Block())
-	key := ck.P.siteKey(call)
+	key := ck.P.siteKey(ea.Inner)
 	if loop == nil || loop.IdxPhi == nil {
 		ck.fail(rule, key+"/loop", ck.P.instrPos(call), funcID(fn), "the write sits in an index-order range loop", "no range loop", "nodes are not visited in sorted order")
 		return
@@ -721,7 +722,11 @@ func (ck *Check) sortBeforeLoop(rule string, fn *ssa.Function, cls string, wantD
 	ck.cond(dir == wantDir, rule, key+"/comparator", pos, funcID(less), "Less(i,j) ≡ "+dirText, how, "the order used is not "+dirText)
 	// element passed to the action is the current element's node (C08.R5) and the copy is complete (R2):
 	ctx := ck.P.NewCtx(fn)
-	src, why := ck.elemSourceList(fn, ctx, call.Common().Args[0])
+	var src *Term
+	why := "the wrapped write does not receive the loop element's node"
+	if ea.NodeArg != nil {
+		src, why = ck.elemSourceList(fn, ctx, ea.NodeArg)
+	}
 	okSrc := src != nil && src.Kind == "param"
 	ck.cond(okSrc, rule, key+"/complete-copy", ck.P.instrPos(call), funcID(fn), "the sorted slice holds one bundle per element of the input list (unconditional full range) and the write targets the current element's node", fmt.Sprint(src), why)
 	// no store to the sorted slice's elements between the sort and the loop that would reorder: stores to bundle.node inside the loop are to a copy
@@ -828,8 +833,15 @@ func checkC07(ck *Check) {
 	// the untaint step returns len(untaintNewestN(opts.taintedNodes, g, opts.nodesDelta))
 	{
 		us := a.UntaintStep
-		uctx := ck.P.NewCtx(us)
-		ug := ck.groupTerm(us)
+		// read the step in the vocabulary of ScaleUp: its parameters bound to the arguments of
+		// ScaleUp's call (the step may take the whole options or just the fields it needs)
+		utArgs := make([]*Term, len(ut.Common().Args))
+		for i, av := range ut.Common().Args {
+			utArgs[i] = ctx.Term(av)
+		}
+		uctx := ctx.child(us, ut, utArgs)
+		uctx.depth = 0
+		ug := ck.groupTerm(fn)
 		okv := false
 		var got string
 		for _, ci := range callsTo(us, a.UntaintLoop) {
